@@ -16,11 +16,11 @@ func init() {
 		[]string{"errors returned by the parser propagate to ParseProgram (rule C18.d), so an unbalanced stack on an error path is never observed", "go/ssa lowering is faithful to the source"},
 		"C20.a", "C20.b", "C20.c", "C20.d", "C20.e", "C18.d")
 
-	register(&Rule{ID: "C20.a", Doc: "scope stacks: push before / pop after the body parse, right stacks, helpers touch only their stack", Floor: 14, Run: c20a})
+	register(&Rule{ID: "C20.a", Doc: "scope stacks: push before / pop after the body parse, right stacks, helpers touch only their stack", Floor: 26, Run: c20a})
 	register(&Rule{ID: "C20.b", Doc: "break/continue only under a non-empty scope stack; node records the stack top; errors at the keyword", Floor: 6, Run: c20b})
 	register(&Rule{ID: "C20.c", Doc: "duplicate case / second default / redefined const: check-before-insert on the stored key", Floor: 5, Run: c20c})
-	register(&Rule{ID: "C20.d", Doc: "text and movement name clashes rejected over inline + explicit names after hoisting", Floor: 4, Run: c20d})
-	register(&Rule{ID: "C20.e", Doc: "script labels checked against all chunk labels and all text labels before rendering", Floor: 5, Run: c20e})
+	register(&Rule{ID: "C20.d", Doc: "text and movement name clashes rejected over inline + explicit names after hoisting", Floor: 9, Run: c20d})
+	register(&Rule{ID: "C20.e", Doc: "script labels checked against all chunk labels and all text labels before rendering", Floor: 9, Run: c20e})
 }
 
 // parserFieldsTouched lists Parser fields loaded or stored (directly) in fn.
